@@ -492,9 +492,18 @@ type c19Removal struct {
 	anyPipeOut  bool // outputs of non-top pipeline nodes may disappear (removeUnusedOutputs)
 	top         string
 	ignoreForks bool // do not compare fork roots / pipeline output expressions (removeInput)
+	forked      bool // the graph has map calls: removing a stage input changes which stages fork, and with
+	// it the split/merge wrapping of downstream expressions; only key sets of inputs are compared then
 }
 
 func c19CompareRemoved(before, after *c19Node, rm *c19Removal) string {
+	if rm.ignoreForks {
+		before.walk(func(n *c19Node) {
+			if n.JSON["fork_roots"] != nil {
+				rm.forked = true
+			}
+		})
+	}
 	bmap := map[string]*c19Node{}
 	before.walk(func(n *c19Node) { bmap[n.Fqid] = n })
 	amap := map[string]*c19Node{}
@@ -528,6 +537,12 @@ func c19CompareRemoved(before, after *c19Node, rm *c19Removal) string {
 				}
 				return fmt.Sprintf("%s: input %s disappeared", fq, k)
 			}
+			if rm.ignoreForks {
+				if rm.forked {
+					continue // only the key sets are compared (see c19Removal.forked)
+				}
+				bv, av = c19StripForks(bv), c19StripForks(av)
+			}
 			if d := c19JSONDiff(bv, av, fq+".inputs."+k); d != "" {
 				return d
 			}
@@ -550,6 +565,15 @@ func c19CompareRemoved(before, after *c19Node, rm *c19Removal) string {
 		} else {
 			be, _ := bo["expression"].(map[string]interface{})
 			ae, _ := ao["expression"].(map[string]interface{})
+			// a disabled pipeline's outputs are wrapped: {__disabled__: cond, value: {…}}
+			for be["__disabled__"] != nil && ae["__disabled__"] != nil {
+				if d := c19JSONDiff(be["__disabled__"], ae["__disabled__"], fq+".outputs.__disabled__"); d != "" {
+					return d
+				}
+				bv, _ := be["value"].(map[string]interface{})
+				av, _ := ae["value"].(map[string]interface{})
+				be, ae = bv, av
+			}
 			if (bo["expression"] == nil) != (ao["expression"] == nil) && len(be) != 0 && !(rm.anyPipeOut || len(rm.outOf[b.Callable]) > 0) {
 				return fmt.Sprintf("%s: outputs presence changed", fq)
 			}
@@ -575,10 +599,16 @@ func c19CompareRemoved(before, after *c19Node, rm *c19Removal) string {
 			}
 		}
 		for _, k := range []string{"disabled", "fork_roots", "retained", "comments"} {
-			if rm.ignoreForks && k == "fork_roots" {
+			if k == "fork_roots" && (rm.ignoreForks || !b.Stage) {
+				// a pipeline node's fork roots are derived from its outputs; a stage's
+				// from its split-dependent inputs
 				continue
 			}
-			if d := c19JSONDiff(b.JSON[k], a.JSON[k], fq+"."+k); d != "" {
+			bv, av := b.JSON[k], a.JSON[k]
+			if rm.ignoreForks {
+				bv, av = c19StripForks(bv), c19StripForks(av)
+			}
+			if d := c19JSONDiff(bv, av, fq+"."+k); d != "" {
 				return d
 			}
 		}
@@ -622,4 +652,28 @@ func c19Strings(v interface{}, f func(string)) {
 			c19Strings(x, f)
 		}
 	}
+}
+
+// c19StripForks drops the fork annotations of references (which fork of a
+// mapped stage a reference selects); they legitimately change when a stage
+// stops depending on a split input.
+func c19StripForks(v interface{}) interface{} {
+	switch v := v.(type) {
+	case []interface{}:
+		o := make([]interface{}, len(v))
+		for i, x := range v {
+			o[i] = c19StripForks(x)
+		}
+		return o
+	case map[string]interface{}:
+		o := make(map[string]interface{}, len(v))
+		for k, x := range v {
+			if k == "fork" || k == "fork_node" || k == "fork_index" {
+				continue
+			}
+			o[k] = c19StripForks(x)
+		}
+		return o
+	}
+	return v
 }
